@@ -175,6 +175,14 @@ def run(ctx: Ctx):
     t = ast.unparse(pr.node)
     ctx.ob("C15-O4", "R18 table", pr, "scores start uniform; update = (1-d)/n + d * incoming share + d * dangling mass / n", "{v: 1.0 / n for v in node_list}" in t and "base_score = (1.0 - damping) / n" in t and "dangling_contrib = damping * dangling_sum / n" in t and "new_scores[v] = base_score + damping * rank_sum + dangling_contrib" in t, "", node=pr.node)
     ctx.ob("C15-O4", "R18 table", pr, "dangling nodes are those without counted out-edges; shares divide by the counted out-degree", "if outgoing_count[v] == 0" in t and "scores[u] / outgoing_count[u] for u in incoming[v]" in t and "outgoing_count[v] += 1" in t, "", node=pr.node)
+    # multiplicity agreement: the in-link container and the out-degree counter see each listed edge the same number of times
+    inc_init = [n.value for n in own_nodes(pr.node) if isinstance(n, (ast.Assign, ast.AnnAssign)) and ast.unparse(n.targets[0] if isinstance(n, ast.Assign) else n.target) == "incoming" and n.value is not None]
+    multiset = bool(inc_init) and all(isinstance(v, ast.DictComp) and isinstance(v.value, ast.List) for v in inc_init)
+    adds = [n for n in own_nodes(pr.node) if isinstance(n, ast.Call) and isinstance(n.func, ast.Attribute) and ast.unparse(n.func.value).startswith("incoming[")]
+    per_listing = all(n.func.attr == "append" for n in adds) and len(adds) == 1
+    cnt = [n for n in own_nodes(pr.node) if isinstance(n, ast.AugAssign) and ast.unparse(n.target).startswith("outgoing_count[")]
+    same_block = bool(adds) and bool(cnt) and _enclosing_block(pr.node, cfg.stmt_node_containing(adds[0]).ast) is _enclosing_block(pr.node, cnt[0])
+    ctx.ob("C15-O4", "R16 PAIRED-EFFECTS", pr, "in-links and out-degree count every listed edge the same number of times (list + append next to the counter increment)", multiset and per_listing and same_block, "a de-duplicated in-link set with a per-listing out-degree (or the reverse) makes a node hand out only part of its score: mass leaks", node=adds[0] if adds else pr.node)
     ctx.ob("C15-O4", "R18 table", pr, "stopping rule is the L-infinity change of the new scores", "max_diff = max(max_diff, abs(new_scores[v] - scores[v]))" in t and "max_diff = 0.0" in t, "", node=pr.node)
     generic_sweeps(ctx)
 
@@ -249,7 +257,15 @@ def _t_reformat(tree):
     pass
 
 
+def _v_incoming_sets(tree):
+    g = M.find_func(tree, "pagerank")
+    M.replace_expr(g, lambda e: isinstance(e, ast.DictComp) and M.src_is(e, "{v: [] for v in node_list}"), M.expr("{v: set() for v in node_list}"))
+    M.replace_expr(g, lambda e: M.src_is(e, "incoming[w].append(v)"), M.expr("incoming[w].add(v)"))
+
+
 VARIANTS = [
+    M.Variant("pagerank de-duplicates in-links but counts every listing (seed C15-B)", PR, _v_incoming_sets, "C15-O4"),
+
     M.Variant("articulation DFS walks the callback directly (original defect)", AR, _v_direct_neighbors, "C15-O1"),
     M.Variant("adjacency helper stores one orientation only", AR, _v_helper_one_way, "C15-O1"),
     M.Variant("root counted as cut vertex with one child", AR, _v_root_one_child, "C15-O5"),
